@@ -871,6 +871,15 @@ def gen_conc(rng, fam, kn, defined, first_bias=None):
     for _ in range(nthreads):
         prog = []
         for _ in range(rng.choice([1, 1, 2, 3])):
+            if kn.get("codecs") and rng.random() < 0.15:
+                # a codec created and used by this thread only (one-shot style ids
+                # are not shared, so creation itself races with the other threads)
+                op = gen_codec_op(rng, fam, kn, defined, [])
+                op["oneshot"] = True
+                op.pop("id", None)
+                op.pop("dd", None)
+                prog.append(op)
+                continue
             cname = focus if rng.random() < 0.6 else rng.choice(classes)
             prog.append(gen_call(rng, fam, kn, defined, cname=cname))
         progs.append(prog)
